@@ -147,6 +147,7 @@ def runG (s : Sys) : List Choice → Option Sys
     | none => none
 
 theorem runThreadG_reach {s0 s s' : Sys} (t : Tid) (h : Hints) (fuel : Nat) (hr : ReachG s0 s) (ht : t < s.threads.length)
+    (hen : enabledThr s t = true ∨ mustPark s t = false)
     (e : runThreadG s t h fuel = some s') : ReachG s0 s' ∧ s' = runThread s t h fuel := by
   induction fuel generalizing s with
   | zero => simp only [runThreadG, Option.some.injEq] at e; subst e; exact ⟨hr, rfl⟩
@@ -156,7 +157,7 @@ theorem runThreadG_reach {s0 s s' : Sys} (t : Tid) (h : Hints) (fuel : Nat) (hr 
     simp only at e ⊢
     split at e
     · rename_i hk
-      have hr' := ReachG.thread t h hr ht (keepsRegsB_sound hk)
+      have hr' := ReachG.thread t h hr ht hen (keepsRegsB_sound hk)
       split at e
       · rename_i hc; simp only [Option.some.injEq] at e; subst e; simp [hc]; exact hr'
       · rename_i hc
@@ -164,7 +165,7 @@ theorem runThreadG_reach {s0 s s' : Sys} (t : Tid) (h : Hints) (fuel : Nat) (hr 
         · rename_i hm; simp only [Option.some.injEq] at e; subst e; simp [hc, hm]; exact hr'
         · rename_i hm
           have ht' : t < (stepThread s t h).threads.length := Nat.lt_of_lt_of_le ht (stepThread_le s t h).tlen
-          obtain ⟨a, b⟩ := ih hr' ht' e
+          obtain ⟨a, b⟩ := ih hr' ht' (Or.inr (by simpa using hm)) e
           simp [hc, hm]
           exact ⟨a, b⟩
     · cases e
@@ -177,7 +178,7 @@ theorem stepG_reach {s0 s s' : Sys} (c : Choice) (h : Hints) (hr : ReachG s0 s) 
     simp only [stepG] at e
     split at e
     · rename_i hen
-      obtain ⟨a, b⟩ := runThreadG_reach t h fuelPerStep (ReachG.clear hr) hen.2 e
+      obtain ⟨a, b⟩ := runThreadG_reach t h fuelPerStep (ReachG.clear hr) hen.2 (Or.inl hen.1) e
       refine ⟨a, ?_⟩
       rw [b]; unfold step; simp only; rw [if_pos hen.1]
     · rename_i hen
